@@ -322,3 +322,154 @@ def component_average_temperature_is_a_weighted_mean(n: int, k: int, fluxWeighte
     if sum(ws) == 0:
         ws = [1.0 for i in el]
     check_mean(avg, ws, [ts[i] for i in el], [True] * len(el), "temperature")
+
+
+GEN4 = dict(GEN3)
+GEN4.update({"T11": (20.0, 900.0), "T12": (20.0, 900.0), "T21": (20.0, 900.0), "T22": (20.0, 900.0), "u11": [0.0, 0.01, 0.02], "u12": [0.0004, 0.003],
+             "u21": [0.0, 0.015], "u22": [0.001, 0.03], "q11": (0.05, 0.9), "q21": (0.05, 0.9), "n": [1, 2]})
+
+
+@lemma(gen=GEN4)
+def nuclide_temperature_is_the_density_volume_weighted_mean(n: int, fluxWeighted: bool, v1: float, v2: float, f1: float, f2: float,
+                                                            T11: float, T12: float, T21: float, T22: float, u11: float, u12: float,
+                                                            u21: float, u22: float, q11: float, q21: float, e1: bool, e2: bool):
+    """calcAvgNuclideTemperatures through AverageBlockCollection._getNucTempHelper and
+    getBlockNuclideTemperatureAvgTerms: 1..2 members (enumerated) of two components each; U235 is listed by every
+    component (first component: density >= 0, a zero counts as a trace; second: > 0), FE56 only by the second component of each block; component
+    temperatures, volume fractions, block volumes and weighting parameters symbolic"""
+    n = choose(n, 1, 2)
+    vs, fs, es = [v1, v2][:n], [f1, f2][:n], [e1, e2][:n]
+    Ts, us, qs = [(T11, T12), (T21, T22)][:n], [(u11, u12), (u21, u22)][:n], [q11, q21][:n]
+    assume(all(v > 0 for v in vs) and any(es) and all(0 < q < 1 for q in qs) and all(a >= 0 and b > 0 for a, b in us))
+    assume(valid_weighting([f for f, e in zip(fs, es) if e]))
+    bc = collection(fluxWeighted, True)
+    for v, f, T, u, q, e in zip(vs, fs, Ts, us, qs, es):
+        ca = comp(0, u[0], 0.0, temp=T[0], volFrac=q, hasFe=False)
+        cb = comp(1, u[1], 0.02, temp=T[1], volFrac=1 - q)
+        bc.append(blk(v, f, 0.0, 0.0, eligible=e, comps=[ca, cb]))
+    bc.calcAvgNuclideTemperatures()
+    el = [i for i in range(n) if es[i]]
+    bw = spec_weights(fluxWeighted, [fs[i] for i in el], [vs[i] for i in el])
+    trace = xsgm.TRACE_NUMBER_DENSITY
+    assert trace > 0
+    # U235: every component of every eligible member contributes with weight block weight x density x volume
+    ws, xs = [], []
+    for w, i in zip(bw, el):
+        for c in (0, 1):
+            d = us[i][c] if us[i][c] != 0 else trace
+            ws.append(w * d * (qs[i] if c == 0 else 1 - qs[i]) * vs[i])
+            xs.append(Ts[i][c])
+    check_mean(bc.avgNucTemperatures["U235"], ws, xs, [True] * len(ws), "T(U235)")
+    # FE56: only the components that list it
+    ws = [w * 0.02 * (1 - qs[i]) * vs[i] for w, i in zip(bw, el)]
+    check_mean(bc.avgNucTemperatures["FE56"], ws, [Ts[i][1] for i in el], [True] * len(ws), "T(FE56)")
+
+
+GEN5 = dict(GEN2)
+GEN5.update({"m1": [0.0, 1.0, 35.5], "m2": [0.0, 2.0, 12.25], "m3": [0.0, 0.5, 100.0], "b1": (0.0, 30.0), "b2": (0.0, 30.0), "b3": (0.0, 30.0)})
+
+
+@lemma(gen=GEN5)
+def averaged_burnup_is_the_heavy_metal_weighted_mean_of_the_eligible_members(n: int, fluxWeighted: bool, v1: float, v2: float, v3: float,
+                                                                             f1: float, f2: float, f3: float, m1: float, m2: float,
+                                                                             m3: float, b1: float, b2: float, b3: float, e1: bool,
+                                                                             e2: bool, e3: bool):
+    """_calcWeightedBurnup (fix d171329): 1..3 members (enumerated), any subset eligible; heavy-metal masses >= 0"""
+    n = choose(n, 1, 3)
+    vs, fs, es = [v1, v2, v3][:n], [f1, f2, f3][:n], [e1, e2, e3][:n]
+    ms, bs = [m1, m2, m3][:n], [b1, b2, b3][:n]
+    assume(all(v > 0 for v in vs) and all(m >= 0 for m in ms))
+    assume(valid_weighting([f for f, e in zip(fs, es) if e]))
+    bc = collection(fluxWeighted, True)
+    for v, f, m, b, e in zip(vs, fs, ms, bs, es):
+        bc.append(blk(v, f, 0.0, 0.0, eligible=e, hm=m, bu=b))
+    bu = bc._calcWeightedBurnup()
+    el = [i for i in range(n) if es[i]]
+    # heavy-metal mass (x the weighting parameter when flux weighted): the volume in the block weight is divided out
+    ws = [ms[i] * (fs[i] if fluxWeighted and fs[i] > 0 else 1.0) for i in el]
+    if sum(ws) == 0:
+        assert eq(bu, 0.0), "no heavy metal among the eligible members: burnup 0"
+    else:
+        check_mean(bu, ws, [bs[i] for i in el], [True] * len(el), "burnup")
+
+
+def member(v, f, u, fe, T, m, h, hm, bu, eligible):
+    """a block with two components (reverse order); the first in sorted order carries u / fe / T / m"""
+    return blk(v, f, u, fe, eligible=eligible, height=h, hm=hm, bu=bu,
+               comps=[comp(1, 0.001, 0.0, temp=-40.0, mass=7.0, hasFe=False), comp(0, u, fe, temp=T, mass=m)])
+
+
+GEN6 = dict(GEN5)
+GEN6.update({"n": [1, 2], "pos": [0, 1, 2], "vx": (0.1, 50.0), "fx": [0.0, 1.0, 4e14], "ux": (0.0, 0.05), "Tx": (20.0, 900.0), "T1": (20.0, 900.0),
+             "T2": (20.0, 900.0), "h1": (0.5, 40.0), "h2": (0.5, 40.0), "hx": (0.5, 40.0), "mx": [0.0, 3.0], "bx": (0.0, 30.0), "g1": [0.5, 1.5],
+             "g2": [0.25, 8.0], "m1": [1.0, 35.5], "m2": [2.0, 12.25], "a1": (0.001, 0.05), "a2": (0.001, 0.05)})
+
+
+@lemma(gen=GEN6)
+def ineligible_members_do_not_contribute(n: int, pos: int, fluxWeighted: bool, v1: float, v2: float, vx: float, f1: float, f2: float, fx: float,
+                                         a1: float, a2: float, ux: float, T1: float, T2: float, Tx: float, m1: float, m2: float, mx: float,
+                                         h1: float, h2: float, hx: float, g1: float, g2: float, b1: float, b2: float, bx: float):
+    """1..2 eligible members (enumerated) and one member of a block type outside validBlockTypes inserted at any
+    position (enumerated): every average equals the one of the collection WITHOUT that member"""
+    n = choose(n, 1, 2)
+    pos = choose(pos, 0, n)
+    vs, fs, us, Ts, ms, hs, gs, bs = [v1, v2][:n], [f1, f2][:n], [a1, a2][:n], [T1, T2][:n], [m1, m2][:n], [h1, h2][:n], [g1, g2][:n], [b1, b2][:n]
+    assume(all(v > 0 for v in vs) and vx > 0 and all(h > 0 for h in hs) and hx > 0 and all(m > 0 for m in ms) and all(g > 0 for g in gs))
+    assume(mx >= 0 and valid_weighting(fs + [fx]) and all(u > 0 for u in us) and ux >= 0)
+    A, B = collection(fluxWeighted, True), collection(fluxWeighted, True)
+    for i in range(n + 1):
+        if i == pos:
+            A.append(member(vx, fx, ux, 0.5 * ux, Tx, mx, hx, 2.5, bx, False))
+        if i < n:
+            A.append(member(vs[i], fs[i], us[i], 0.0, Ts[i], ms[i], hs[i], gs[i], bs[i], True))
+            B.append(member(vs[i], fs[i], us[i], 0.0, Ts[i], ms[i], hs[i], gs[i], bs[i], True))
+    assert len(A) == n + 1 and len(A.getCandidateBlocks()) == n
+    assert eq(A._getAverageNumberDensities()["U235"], B._getAverageNumberDensities()["U235"]), "block densities"
+    assert eq(A._getAverageComponentNumberDensities(0)["U235"], B._getAverageComponentNumberDensities(0)["U235"]), "component densities"
+    assert eq(A._getAverageComponentTemperature(0), B._getAverageComponentTemperature(0)), "component temperature"
+    assert eq(A._calcWeightedBurnup(), B._calcWeightedBurnup()), "burnup"
+    A.calcAvgNuclideTemperatures()
+    B.calcAvgNuclideTemperatures()
+    assert eq(A.avgNucTemperatures["U235"], B.avgNucTemperatures["U235"]), "nuclide temperature"
+
+
+@lemma(gen=GEN6)
+def averages_with_fixed_weights_are_the_stated_means(fluxWeighted: bool, a1: float, a2: float, ux: float, T1: float, T2: float, Tx: float,
+                                                     b1: float, b2: float, bx: float):
+    """three members with CONCRETE volumes 1, 3, 1/2, weighting parameters 2, 5, 1, heights 2, 1, 4, component
+    masses 3, 1, 2 and heavy-metal masses 1, 4, 2; densities, temperatures and burnups symbolic (linear arithmetic:
+    a wrong weight is refuted with a model at once; the general statement is in the lemmas above)"""
+    bc = collection(fluxWeighted, False)
+    bc.append(member(1.0, 2.0, a1, 0.0, T1, 3.0, 2.0, 1.0, b1, True))
+    bc.append(member(3.0, 5.0, a2, 0.0, T2, 1.0, 1.0, 4.0, b2, True))
+    bc.append(member(0.5, 1.0, ux, 0.0, Tx, 2.0, 4.0, 2.0, bx, True))
+    w = [2.0, 15.0, 0.5] if fluxWeighted else [1.0, 3.0, 0.5]
+    W = w[0] + w[1] + w[2]
+    assert eq(bc._getAverageNumberDensities()["U235"] * W, w[0] * a1 + w[1] * a2 + w[2] * ux)
+    assert eq(bc._getAverageComponentNumberDensities(0)["U235"] * W, w[0] * a1 + w[1] * a2 + w[2] * ux)
+    assert eq(bc._getAverageComponentNumberDensities(1)["U235"], 0.001)
+    tw = [w[0] / 2.0 * 3.0, w[1] / 1.0 * 1.0, w[2] / 4.0 * 2.0]  # block weight / height x component mass
+    assert eq(bc._getAverageComponentTemperature(0) * (tw[0] + tw[1] + tw[2]), tw[0] * T1 + tw[1] * T2 + tw[2] * Tx)
+    assert eq(bc._getAverageComponentTemperature(1), -40.0)
+    hw = [1.0 * 2.0, 4.0 * 5.0, 2.0 * 1.0] if fluxWeighted else [1.0, 4.0, 2.0]  # heavy metal (x weighting parameter)
+    assert eq(bc._calcWeightedBurnup() * (hw[0] + hw[1] + hw[2]), hw[0] * b1 + hw[1] * b2 + hw[2] * bx)
+
+
+@lemma(gen=GEN4)
+def nuclide_temperatures_with_fixed_weights_are_the_stated_means(fluxWeighted: bool, T11: float, T12: float, T21: float, T22: float, t3: float):
+    """two eligible members with CONCRETE volumes 1, 3, weighting parameters 2, 5, volume fractions (1/4, 3/4), (1/2,
+    1/2), U235 densities (0.01, 0 = trace), (0.02, 0.004), FE56 0.03 in the second components only, and one
+    ineligible member; the four component temperatures symbolic (linear arithmetic, see the general lemma above)"""
+    bc = collection(fluxWeighted, True)
+    bc.append(blk(1.0, 2.0, 0.0, 0.0, comps=[comp(0, 0.01, 0.0, temp=T11, volFrac=0.25, hasFe=False), comp(1, 0.0, 0.03, temp=T12, volFrac=0.75)]))
+    bc.append(blk(9.0, 7.0, 0.0, 0.0, eligible=False, comps=[comp(0, 0.5, 0.5, temp=t3, volFrac=1.0)]))
+    bc.append(blk(3.0, 5.0, 0.0, 0.0, comps=[comp(0, 0.02, 0.0, temp=T21, volFrac=0.5, hasFe=False), comp(1, 0.004, 0.03, temp=T22, volFrac=0.5)]))
+    bc.calcAvgNuclideTemperatures()
+    w1, w2 = (2.0 * 1.0, 5.0 * 3.0) if fluxWeighted else (1.0, 3.0)
+    tr = xsgm.TRACE_NUMBER_DENSITY
+    # weight of a component: block weight x density x volume fraction x block volume
+    u = [w1 * 0.01 * 0.25 * 1.0, w1 * tr * 0.75 * 1.0, w2 * 0.02 * 0.5 * 3.0, w2 * 0.004 * 0.5 * 3.0]
+    assert eq(bc.avgNucTemperatures["U235"] * (u[0] + u[1] + u[2] + u[3]), u[0] * T11 + u[1] * T12 + u[2] * T21 + u[3] * T22)
+    fe = [w1 * 0.03 * 0.75 * 1.0, w2 * 0.03 * 0.5 * 3.0]
+    assert eq(bc.avgNucTemperatures["FE56"] * (fe[0] + fe[1]), fe[0] * T12 + fe[1] * T22)
+    assert len(bc.avgNucTemperatures) == 2
